@@ -15,6 +15,19 @@ pub open spec fn cat_from(v: Seq<RegLan>, k: int, w: Seq<u32>) -> bool
     else { exists|i: int| #![trigger wit(i)] 0 <= i <= w.len() && wit(i) && lang_k(v[k].expr, w.subrange(0, i)) && cat_from(v, k + 1, w.subrange(i, w.len() as int)) }
 }
 
+// subranges of subranges, for a word cut at i <= j
+pub proof fn lemma_sub3(w: Seq<u32>, i: int, j: int)
+    requires 0 <= i <= j <= w.len(),
+    ensures
+        w.subrange(0, j).subrange(0, i) == w.subrange(0, i),
+        w.subrange(0, j).subrange(i, j) == w.subrange(i, w.len() as int).subrange(0, j - i),
+        w.subrange(j, w.len() as int) == w.subrange(i, w.len() as int).subrange(j - i, w.len() - i),
+{
+    assert(w.subrange(0, j).subrange(0, i) =~= w.subrange(0, i));
+    assert(w.subrange(0, j).subrange(i, j) =~= w.subrange(i, w.len() as int).subrange(0, j - i));
+    assert(w.subrange(j, w.len() as int) =~= w.subrange(i, w.len() as int).subrange(j - i, w.len() - i));
+}
+
 // w = w1 . w2 with w1 in the concatenation of v[0..n) and w2 in L(x)
 pub open spec fn cat_then(v: Seq<RegLan>, n: int, x: BaseRegLan, w: Seq<u32>) -> bool {
     exists|i: int| #![trigger wit(i)] 0 <= i <= w.len() && wit(i) && cat_upto(v, n, w.subrange(0, i)) && lang_k(x, w.subrange(i, w.len() as int))
@@ -64,6 +77,35 @@ pub proof fn lemma_cat_push(v: Seq<RegLan>, r: RegLan, w: Seq<u32>)
     }
 }
 
+// (A . X) . Y  is inside  A . (X . Y)
+pub proof fn lemma_cat_assoc_fwd(v1: Seq<RegLan>, n1: int, x: RegLan, y: RegLan, w: Seq<u32>, j: int, i: int)
+    requires 0 <= i <= j <= w.len(),
+        cat_upto(v1, n1, w.subrange(0, i)), lang_k(x.expr, w.subrange(0, j).subrange(i, j)), lang_k(y.expr, w.subrange(j, w.len() as int)),
+    ensures cat_then(v1, n1, BaseRegLan::Concat(x, y), w),
+{
+    lemma_sub3(w, i, j);
+    let t = w.subrange(i, w.len() as int);
+    assert(lang_k(x.expr, t.subrange(0, j - i)));
+    assert(lang_k(y.expr, t.subrange(j - i, t.len() as int)));
+    assert(wit(j - i));
+    assert(lang_k(BaseRegLan::Concat(x, y), t));
+    assert(wit(i));
+}
+
+// A . (X . Y)  is inside  (A . X) . Y: the cut points
+pub proof fn lemma_cat_assoc_bwd(v1: Seq<RegLan>, n1: int, x: RegLan, y: RegLan, w: Seq<u32>, i: int, d: int)
+    requires 0 <= i <= w.len(), 0 <= d <= w.len() - i,
+        cat_upto(v1, n1, w.subrange(0, i)),
+        lang_k(x.expr, w.subrange(i, w.len() as int).subrange(0, d)), lang_k(y.expr, w.subrange(i, w.len() as int).subrange(d, w.len() - i)),
+    ensures cat_then(v1, n1, x.expr, w.subrange(0, i + d)), lang_k(y.expr, w.subrange(i + d, w.len() as int)),
+{
+    lemma_sub3(w, i, i + d);
+    let u = w.subrange(0, i + d);
+    assert(u.subrange(0, i) == w.subrange(0, i));
+    assert(u.subrange(i, u.len() as int) == w.subrange(i, w.len() as int).subrange(0, d));
+    assert(wit(i));
+}
+
 // (A . X) . Y == A . (X . Y) at the level of splits
 pub proof fn lemma_cat_then_assoc(v1: Seq<RegLan>, n1: int, v2: Seq<RegLan>, n2: int, v3: Seq<RegLan>, n3: int, x: RegLan, y: RegLan, w: Seq<u32>)
     requires
@@ -78,27 +120,16 @@ pub proof fn lemma_cat_then_assoc(v1: Seq<RegLan>, n1: int, v2: Seq<RegLan>, n2:
         let u = w.subrange(0, j);
         assert(cat_then(v1, n1, x.expr, u));
         let i = choose|i: int| #![trigger wit(i)] 0 <= i <= u.len() && wit(i) && cat_upto(v1, n1, u.subrange(0, i)) && lang_k(x.expr, u.subrange(i, u.len() as int));
-        assert(u.subrange(0, i) =~= w.subrange(0, i));
-        let t = w.subrange(i, w.len() as int);
-        assert(u.subrange(i, u.len() as int) =~= t.subrange(0, j - i));
-        assert(w.subrange(j, w.len() as int) =~= t.subrange(j - i, t.len() as int));
-        assert(wit(j - i));
-        assert(lang_k(k, t));
-        assert(wit(i));
+        lemma_sub3(w, i, j);
+        lemma_cat_assoc_fwd(v1, n1, x, y, w, j, i);
     }
     if cat_then(v1, n1, k, w) {
         let i = choose|i: int| #![trigger wit(i)] 0 <= i <= w.len() && wit(i) && cat_upto(v1, n1, w.subrange(0, i)) && lang_k(k, w.subrange(i, w.len() as int));
         let t = w.subrange(i, w.len() as int);
         let d = choose|d: int| #![trigger wit(d)] 0 <= d <= t.len() && wit(d) && lang_k(x.expr, t.subrange(0, d)) && lang_k(y.expr, t.subrange(d, t.len() as int));
-        let j = i + d;
-        let u = w.subrange(0, j);
-        assert(u.subrange(0, i) =~= w.subrange(0, i));
-        assert(u.subrange(i, u.len() as int) =~= t.subrange(0, d));
-        assert(w.subrange(j, w.len() as int) =~= t.subrange(d, t.len() as int));
-        assert(wit(i));
-        assert(cat_then(v1, n1, x.expr, u));
-        assert(cat_upto(v2, n2, u));
-        assert(wit(j));
+        lemma_cat_assoc_bwd(v1, n1, x, y, w, i, d);
+        assert(cat_upto(v2, n2, w.subrange(0, i + d)));
+        assert(wit(i + d));
         assert(cat_then(v2, n2, y.expr, w));
     }
 }
@@ -118,9 +149,10 @@ pub proof fn lemma_cat_split_step(v: Seq<RegLan>, k: int, w: Seq<u32>)
         let d = choose|d: int| #![trigger wit(d)] 0 <= d <= t.len() && wit(d) && lang_k(v[k].expr, t.subrange(0, d)) && cat_from(v, k + 1, t.subrange(d, t.len() as int));
         let j = i + d;
         let u = w.subrange(0, j);
-        assert(u.subrange(0, i) =~= w.subrange(0, i));
-        assert(u.subrange(i, u.len() as int) =~= t.subrange(0, d));
-        assert(w.subrange(j, w.len() as int) =~= t.subrange(d, t.len() as int));
+        lemma_sub3(w, i, j);
+        assert(u.subrange(0, i) == w.subrange(0, i));
+        assert(u.subrange(i, u.len() as int) == t.subrange(0, d));
+        assert(w.subrange(j, w.len() as int) == t.subrange(d, t.len() as int));
         assert(wit(i));
         assert(cat_upto(v, k + 1, u));
         assert(wit(j));
@@ -130,9 +162,10 @@ pub proof fn lemma_cat_split_step(v: Seq<RegLan>, k: int, w: Seq<u32>)
         let u = w.subrange(0, j);
         let i = choose|i: int| #![trigger wit(i)] 0 <= i <= u.len() && wit(i) && cat_upto(v, k, u.subrange(0, i)) && lang_k(v[k].expr, u.subrange(i, u.len() as int));
         let t = w.subrange(i, w.len() as int);
-        assert(u.subrange(0, i) =~= w.subrange(0, i));
-        assert(u.subrange(i, u.len() as int) =~= t.subrange(0, j - i));
-        assert(w.subrange(j, w.len() as int) =~= t.subrange(j - i, t.len() as int));
+        lemma_sub3(w, i, j);
+        assert(u.subrange(0, i) == w.subrange(0, i));
+        assert(u.subrange(i, u.len() as int) == t.subrange(0, j - i));
+        assert(w.subrange(j, w.len() as int) == t.subrange(j - i, t.len() as int));
         assert(wit(j - i));
         assert(cat_from(v, k, t));
         assert(wit(i));
